@@ -78,9 +78,11 @@ Proof. exact accepted_total. Qed.
 Print Assumptions C08_accepted_total.
 
 (** ... and it round-trips every value ([frag]: the codec constructors covered
-    by C01's theorem - no maps, protobuf forms, JSON / BQ codecs) *)
+    by C01's theorem - everything but the JSON / BQ codecs and scalar slices
+    over pointer / null elements): on its own unless it is a repeated form
+    ([topb]), and as a field of any struct always ([FRT]) *)
 Theorem C08_accepted_roundtrips_partial : forall C E fuel t tag c,
-  codec_for C E fuel t tag = Ok c -> frag c = true -> RTc c.
+  codec_for C E fuel t tag = Ok c -> frag c = true -> (topb c = true -> RTc c) /\ FRT c.
 Proof. exact accepted_roundtrips. Qed.
 Print Assumptions C08_accepted_roundtrips_partial.
 
